@@ -3,7 +3,7 @@
 Require Extraction.
 Require Import ExtrOcamlBasic.
 From Coq Require Import NArith ZArith List.
-From VT Require Import Gen.Constants Base.Outcome Model.Cache Model.BBox Model.Pipeline Model.Stream Model.FileIO Model.Recompress Model.Http Model.StaticPath Model.Json.
+From VT Require Import Gen.Constants Base.Outcome Model.Cache Model.BBox Model.Pipeline Model.Stream Model.FileIO Model.Recompress Model.Http Model.StaticPath Model.Json Model.VPL.
 Extraction Blacklist String List Nat Int Char.
 Set Extraction KeepSingleton.
 Extraction "../ocaml/model.ml"
@@ -16,6 +16,7 @@ Extraction "../ocaml/model.ml"
   Constants.file_read_variant FileIO.read_range_prog
   Constants.tile_path_variant Constants.static_guard_variant Http.status StaticPath.served StaticPath.components StaticPath.names StaticPath.request_url
   Constants.json_hex_variant Json.quote Json.parse_string Json.parse_json Json.stringify
+  Constants.vpl_empty_variant VPL.parse_vpl
   Recompress.recompressor Recompress.optimize Recompress.compress Recompress.framed Recompress.process
   Cache.run Cache.empty
   BBox.new BBox.new_full BBox.new_empty BBox.is_empty BBox.width BBox.height BBox.count_tiles BBox.contains2 BBox.contains3
